@@ -19,22 +19,30 @@ Definition chk_join (t : lty) (a b c : val t) (i : obs t) : N :=
 Record hobs (t : lty) := {
   h_ab : val t * bool;  h_cmp : option comparison;  h_eq : bool;  h_from : val t;
   h_hom_ab : val t * bool;  h_hom_cmp : option comparison;  h_hom_eq : bool;
+  h_bot_b : bool;  h_top_b : bool;
 }.
 Arguments h_ab {t}. Arguments h_cmp {t}. Arguments h_eq {t}. Arguments h_from {t}.
 Arguments h_hom_ab {t}. Arguments h_hom_cmp {t}. Arguments h_hom_eq {t}.
+Arguments h_bot_b {t}. Arguments h_top_b {t}.
 
 Definition hobs_agree (t : lty) (a b : val t) (i : hobs t) : bool :=
   same_r t (h_ab i) (mrg (ops t) a b) &&
   cmp_eqb (h_cmp i) (cmp (ops t) a b) &&
   Bool.eqb (h_eq i) (eqb (ops t) a b) &&
-  same t (h_from i) b.
+  same t (h_from i) b &&
+  Bool.eqb (h_bot_b i) (isbot (ops t) b) && Bool.eqb (h_top_b i) (istop (ops t) b).
 
 (* representation independence as observed on the implementation: merging / comparing with
-   the other representation directly equals doing so after LatticeFrom, and the conversion
-   keeps the value *)
+   the other representation directly equals doing so after LatticeFrom, the conversion keeps
+   the value, and the comparison agrees with the merge flag and with is_bot of the other side
+   (a bottom never changes the receiver and is below it) *)
 Definition C04_het_b (t : lty) (b : val t) (i : hobs t) : bool :=
   same_r t (h_ab i) (h_hom_ab i) && cmp_eqb (h_cmp i) (h_hom_cmp i) &&
-  Bool.eqb (h_eq i) (h_hom_eq i) && same t (h_from i) b.
+  Bool.eqb (h_eq i) (h_hom_eq i) && same t (h_from i) b &&
+  Bool.eqb (h_eq i) (cmp_eqb (h_cmp i) (Some Eq)) &&
+  (* merge(a <- b) unchanged  <->  b <= a, i.e. a >= b *)
+  Bool.eqb (negb (snd (h_ab i))) (match h_cmp i with Some Gt | Some Eq => true | _ => false end) &&
+  (negb (h_bot_b i) || negb (snd (h_ab i))).
 
 Definition chk_het (t : lty) (a b : val t) (i : hobs t) : N :=
   verdict (hobs_agree t a b i) (C04_het_b t b i).
